@@ -152,9 +152,23 @@ struct Env {
     base_snap: Tree,
 }
 
+/// Two embedded types in one process: the second folder's filesystem is constructed FIRST and
+/// must show exactly its own folder - before and after the main fixture's filesystem exists.
+fn check_second_type(when: &str) -> Result<(), String> {
+    let emb2 = VfsPath::new(EmbeddedFS::<crate::embed::Fixture2>::new());
+    let got = snapshot(&emb2);
+    let want = crate::embed::fixture2_tree();
+    if got.tree != want {
+        return Err(format!("the EmbeddedFS of the second embedded folder ({}) does not show that folder: {:?}", when, diff_trees(&want, &got.tree)));
+    }
+    Ok(())
+}
+
 fn env() -> Result<Env, String> {
+    check_second_type("constructed first")?;
     let model = raw_model();
     let emb = VfsPath::new(EmbeddedFS::<Fixture>::new());
+    check_second_type("constructed again after the main fixture's filesystem")?;
     let phys = VfsPath::new(PhysicalFS::new(fixture_dir()));
     let s = snapshot(&emb);
     Ok(Env { emb, phys, model, base_snap: s.tree })
